@@ -408,7 +408,9 @@ fn classify_budget(log: &[Event]) -> (bool, String, u64) {
 /// running out of memory by asking for it is not reported: allocation-proportional arguments are capped
 fn alloc_cap(core: &mut sim::Core, info: &sim::StartInfo) -> Option<duckscript::types::command::CommandResult> {
     if info.name == "std::random::Text" || info.name == "std::collections::Range" {
-        let too_big = |a: &String| a.parse::<i128>().map(|n| n.unsigned_abs() > 100_000).unwrap_or(false);
+        // (between 10^5 and 10^12 elements the request would really be served, slowly, out of the sandbox's memory;
+        // beyond that it cannot be served at all and must be refused by the command, not by a panic or an abort)
+        let too_big = |a: &String| a.parse::<i128>().map(|n| n.unsigned_abs() > 100_000 && n.unsigned_abs() < 1_000_000_000_000).unwrap_or(false);
         if info.args.iter().any(too_big) {
             core.probe("allocation-proportional-argument-capped");
             return Some(duckscript::types::command::CommandResult::Error("dsim: allocation-proportional argument above the cap".to_string()));
